@@ -231,7 +231,7 @@ class C28(Check):
             with open(os.path.join(d, "q.sql"), "w", encoding="utf8", newline="") as fh:
                 fh.write(case["sql"])
             flags = list(case.get("flags") or [])
-            p = subprocess.run([sys.executable, "-m", "sqlfluff", "parse", "q.sql", "--dialect", case["dialect"], "--format",
+            p = subprocess.run([sys.executable, "-m", "sqlfluff", "parse", "q.sql", "--dialect", case["dialect"], "--encoding", "utf-8", "--format",
                                 case["cli"], "--nocolor"] + flags, cwd=d, capture_output=True, text=True, encoding="utf8",
                                env=os.environ, timeout=300)
             if p.returncode not in (0, 1) or "Traceback" in p.stderr:
